@@ -146,6 +146,21 @@ def demo_c12_trace():
     return tcs[0]["clean"] and acc == [0], (tcs[0]["clean"], acc, len(good["log"]))
 
 
+def demo_c12_types():
+    from . import c12
+    _name, good, seen, warn = c12.type_job("struct(real, ptr array)")
+    bad = copy.deepcopy(good)
+    d = bad["deinit"]
+    k = [j for j, i in enumerate(d) if i == ["deallocate", ["y"]]][0]
+    m = [j for j, i in enumerate(d) if i == ["deallocate", ["y", "v"]]][0]
+    d[k], d[m] = d[m], d[k]                                                          # container released before its member
+    out = tlc.judge_batch("TypeRoutines", [good, bad], chunk=50, jobs=1, tags=("BAD", "RAN"))
+    badc = {(t[1], t[2]) for t in out["BAD"]}
+    ran0 = {(t[2], t[3]) for t in out["RAN"] if t[1] == 0}
+    return (not seen and not warn and len(ran0) == 6 and not [b for b in badc if b[0] == 0]
+            and bool({(1, "NoMemberLeak"), (1, "NoAccessUnderFreed")} & badc)), (sorted(badc), len(ran0), seen)
+
+
 def demo_c16():
     from . import c16
     from .gen import CMP, V, assign, if_
@@ -166,7 +181,8 @@ DEMOS = [("C02 Sched: dropped dependency edge", demo_c02), ("C04 TraceController
          ("C01 Stepper: yielded value changed", demo_c01), ("C13 Names: identifier reused", demo_c13),
          ("C20 Wrap: string split", demo_c20), ("C10 Verify: cycle reported accepted", demo_c10),
          ("C12 RefCount: exit-label releases removed", demo_c12),
-         ("C12 TraceRefCount: one logged release removed", demo_c12_trace), ("C16 Fuse: guard points at the other flag", demo_c16)]
+         ("C12 TraceRefCount: one logged release removed", demo_c12_trace),
+         ("C12 TypeRoutines: container released before member", demo_c12_types), ("C16 Fuse: guard points at the other flag", demo_c16)]
 
 
 def main():
